@@ -8,6 +8,19 @@ the C++): how a CPU / a data reader recovers the displacement from the patched w
 * unsigned field: the same, zero-extended (absolute addresses / embedded label addresses)
 * A64 ADR       : imm = immhi(bits 23..5) : immlo(bits 30..29), sign-extended from 21 bits
 * A64 ADRP      : the same, times 4096
+
+A32 / T32 (Arm ARM DDI 0406C, A8.8; a T32 instruction is the word `hw1:hw2`, first half-word in bits 31..16,
+as in the encoding diagrams):
+* T32 ADR  (T3 add / T2 sub): imm32 = ZeroExtend(i:imm3:imm8), i = bit 26, imm3 = bits 14..12, imm8 = bits 7..0;
+  T2 (bits 23 and 21 set) subtracts, T3 (both clear) adds
+* T32 B.W  (T4): imm32 = SignExtend(S:I1:I2:imm10:imm11:'0'), S = bit 26, imm10 = 25..16, J1 = bit 13, J2 = bit 11,
+  imm11 = 10..0, I1 = NOT(J1 EOR S), I2 = NOT(J2 EOR S)
+* T32 BLX  (T2): imm32 = SignExtend(S:I1:I2:imm10H:imm10L:'00'), imm10L = bits 10..1, bit 0 (H) must be 0
+* T32 B<c>.W (T3): imm32 = SignExtend(S:J2:J1:imm6:imm11:'0'), imm6 = bits 21..16
+* A32 ADR  (A1 add = bit 23, A2 sub = bit 22): imm32 = ARMExpandImm(imm12) = ROR(ZeroExtend(imm8), 2*rot4)
+* A32 LDR (literal) style: U = bit 23 (1 = add), magnitude = the immediate field (imm12, or imm8*4 for VLDR)
+* A32 LDRH/LDRD (literal): U = bit 23, imm8 = imm4H(bits 11..8):imm4L(bits 3..0)
+* A32 BLX (A2): imm32 = SignExtend(imm24:H:'0'), H = bit 24
 -/
 import AsmjitVerif.Model.Offset
 namespace AsmjitVerif.Offset
@@ -21,7 +34,36 @@ def sext64 (bits : Nat) (x : BitVec 64) : BitVec 64 :=
 def fieldMask32 (f : OffsetFormat) : BitVec 32 :=
   match f.type with
   | .a64Adr | .a64Adrp => 0x60FFFFE0#32
+  | .thumb32Adr => 0x04A070FF#32                    -- i, the two op bits that tell ADD from SUB, imm3, imm8
+  | .thumb32Blx | .thumb32B => 0x07FF2FFF#32        -- S, imm10, J1, J2, imm11
+  | .thumb32BCond => 0x043F2FFF#32                  -- S, imm6, J1, J2, imm11
+  | .a32Adr => 0x00C00FFF#32                        -- the two op bits that tell ADD from SUB, imm12
+  | .a32U23Signed => 0x00800000#32 ||| BitVec.ofNat 32 ((2 ^ f.bitCount - 1) * 2 ^ f.bitShift)
+  | .a32U23Split => 0x00800F0F#32
+  | .a32_1To24 => 0x01FFFFFF#32
   | _ => BitVec.ofNat 32 ((2 ^ f.bitCount - 1) * 2 ^ f.bitShift)
+
+/-- `ROR(x, n)` of the Arm ARM on 32 bits, n < 32 -/
+def rorSpec (x : BitVec 32) (n : BitVec 32) : BitVec 32 := (x >>> n) ||| (x <<< ((32#32 - n) &&& 31#32))
+
+/-- T32 branch immediates: S:I1:I2 with I = NOT(J EOR S) -/
+def t32BranchHigh (w : BitVec 32) : BitVec 32 :=
+  let sgn := (w >>> 26) &&& 1#32
+  let i1 := ((w >>> 13) ^^^ sgn ^^^ 1#32) &&& 1#32
+  let i2 := ((w >>> 11) ^^^ sgn ^^^ 1#32) &&& 1#32
+  (sgn <<< 2) ||| (i1 <<< 1) ||| i2
+
+/-- add or subtract a magnitude -/
+def signMag (add : Bool) (mag : BitVec 64) : BitVec 64 := if add then mag else -mag
+
+/-- constraints the architecture puts on the field bits themselves (a word violating them is a different
+instruction): T32 ADR op bits equal, A32 ADR exactly one op bit, T32 BLX bit 0 clear -/
+def fieldValid32 (f : OffsetFormat) (w : BitVec 32) : Bool :=
+  match f.type with
+  | .thumb32Adr => w.getLsbD 23 == w.getLsbD 21
+  | .a32Adr => w.getLsbD 23 != w.getLsbD 22
+  | .thumb32Blx => !w.getLsbD 0
+  | _ => true
 
 def fieldMask64 (f : OffsetFormat) : BitVec 64 :=
   BitVec.ofNat 64 ((2 ^ f.bitCount - 1) * 2 ^ f.bitShift)
@@ -39,7 +81,29 @@ def decode32 (f : OffsetFormat) (w : BitVec 32) : BitVec 64 :=
     let immlo := (w >>> 29) &&& 3#32
     let immhi := (w >>> 5) &&& 0x7FFFF#32
     (sext64 21 (((immhi <<< 2) ||| immlo).zeroExtend 64)) <<< 12
-  | _ => 0#64
+  | .thumb32Adr =>
+    let imm := (((w >>> 26) &&& 1#32) <<< 11) ||| (((w >>> 12) &&& 7#32) <<< 8) ||| (w &&& 0xFF#32)
+    signMag (!w.getLsbD 23) (imm.zeroExtend 64)
+  | .thumb32B =>
+    let imm := (t32BranchHigh w <<< 22) ||| (((w >>> 16) &&& 0x3FF#32) <<< 12) ||| ((w &&& 0x7FF#32) <<< 1)
+    sext64 25 (imm.zeroExtend 64)
+  | .thumb32Blx =>
+    let imm := (t32BranchHigh w <<< 22) ||| (((w >>> 16) &&& 0x3FF#32) <<< 12) ||| (((w >>> 1) &&& 0x3FF#32) <<< 2)
+    sext64 25 (imm.zeroExtend 64)
+  | .thumb32BCond =>
+    let imm := (((w >>> 26) &&& 1#32) <<< 20) ||| (((w >>> 11) &&& 1#32) <<< 19) ||| (((w >>> 13) &&& 1#32) <<< 18) |||
+               (((w >>> 16) &&& 0x3F#32) <<< 12) ||| ((w &&& 0x7FF#32) <<< 1)
+    sext64 21 (imm.zeroExtend 64)
+  | .a32Adr =>
+    let imm12 := (w >>> f.bitShift) &&& 0xFFF#32
+    let imm := rorSpec (imm12 &&& 0xFF#32) ((imm12 >>> 8) <<< 1)
+    signMag (w.getLsbD 23) (imm.zeroExtend 64)
+  | .a32U23Signed =>
+    signMag (w.getLsbD 23) ((((w >>> f.bitShift).zeroExtend 64) &&& BitVec.ofNat 64 (2 ^ f.bitCount - 1)) <<< f.discard)
+  | .a32U23Split =>
+    signMag (w.getLsbD 23) (((((w >>> 8) &&& 0xF#32) <<< 4) ||| (w &&& 0xF#32)).zeroExtend 64)
+  | .a32_1To24 =>
+    sext64 26 ((((w &&& 0xFFFFFF#32) <<< 2) ||| (((w >>> 24) &&& 1#32) <<< 1)).zeroExtend 64)
 
 def decode64 (f : OffsetFormat) (w : BitVec 64) : BitVec 64 :=
   match f.type with
@@ -48,6 +112,16 @@ def decode64 (f : OffsetFormat) (w : BitVec 64) : BitVec 64 :=
   | _ => 0#64
 
 /-! ### the decidable monitor of the property (run by the driver on the implementation's answers) -/
+
+/-- magnitude of a displacement read as a signed number -/
+def absOff (off : BitVec 64) : BitVec 64 := if off.msb then -off else off
+
+/-- T32 B.W / BL / BLX field from the 24-bit value S:I1:I2:imm10:imm11 -/
+def t32BranchEnc (v : BitVec 32) : BitVec 32 :=
+  let sgn := (v >>> 23) &&& 1#32
+  let j1 := (((v >>> 22) ^^^ sgn) ^^^ 1#32) &&& 1#32
+  let j2 := (((v >>> 21) ^^^ sgn) ^^^ 1#32) &&& 1#32
+  (v &&& 0x7FF#32) ||| (((v >>> 11) &&& 0x3FF#32) <<< 16) ||| (sgn <<< 26) ||| (j1 <<< 13) ||| (j2 <<< 11)
 
 /-- canonical field content for a displacement (spec side, independent of the model) -/
 def specEnc32 (f : OffsetFormat) (off : BitVec 64) : BitVec 32 :=
@@ -58,7 +132,34 @@ def specEnc32 (f : OffsetFormat) (off : BitVec 64) : BitVec 32 :=
   | .a64Adrp =>
     let v := (off >>> 12).truncate 32 &&& 0x1FFFFF#32
     ((v &&& 3#32) <<< 29) ||| ((v >>> 2) <<< 5)
-  | _ => (((off >>> f.discard).truncate 32) &&& BitVec.ofNat 32 (2 ^ f.bitCount - 1)) <<< f.bitShift
+  | .signed | .unsigned => (((off >>> f.discard).truncate 32) &&& BitVec.ofNat 32 (2 ^ f.bitCount - 1)) <<< f.bitShift
+  | .thumb32Adr =>
+    let v := (absOff off).truncate 32 &&& 0xFFF#32
+    let n : BitVec 32 := if off.msb then 1#32 else 0#32
+    (v &&& 0xFF#32) ||| (((v >>> 8) &&& 7#32) <<< 12) ||| ((v >>> 11) <<< 26) ||| (n <<< 21) ||| (n <<< 23)
+  | .thumb32B => t32BranchEnc ((off >>> 1).truncate 32 &&& 0xFFFFFF#32)
+  | .thumb32Blx => t32BranchEnc (((off >>> 2).truncate 32 &&& 0x7FFFFF#32) <<< 1)
+  | .thumb32BCond =>
+    let v := (off >>> 1).truncate 32 &&& 0xFFFFF#32
+    (v &&& 0x7FF#32) ||| (((v >>> 11) &&& 0x3F#32) <<< 16) ||| (((v >>> 17) &&& 1#32) <<< 13) |||
+      (((v >>> 18) &&& 1#32) <<< 11) ||| ((v >>> 19) <<< 26)
+  | .a32Adr =>
+    let v := (absOff off).truncate 32
+    let op : BitVec 32 := if off.msb then 0x400000#32 else 0x800000#32
+    -- the first (smallest) rotation that brings the value into 8 bits, if any (ROL by 2k undoes ROR by 2k)
+    (List.range 16).foldr (fun k acc =>
+      let imm8 := rorSpec v (BitVec.ofNat 32 ((32 - 2 * k) % 32))
+      if imm8.ule 0xFF#32 then op ||| (((BitVec.ofNat 32 k <<< 8) ||| imm8) <<< f.bitShift) else acc) op
+  | .a32U23Signed =>
+    let u : BitVec 32 := if off.msb then 0#32 else 0x800000#32
+    u ||| ((((absOff off >>> f.discard).truncate 32) &&& BitVec.ofNat 32 (2 ^ f.bitCount - 1)) <<< f.bitShift)
+  | .a32U23Split =>
+    let u : BitVec 32 := if off.msb then 0#32 else 0x800000#32
+    let v := (absOff off).truncate 32 &&& 0xFF#32
+    u ||| (v &&& 0xF#32) ||| ((v >>> 4) <<< 8)
+  | .a32_1To24 =>
+    let v := (off >>> 1).truncate 32 &&& 0x1FFFFFF#32
+    ((v &&& 1#32) <<< 24) ||| (v >>> 1)
 
 def specEnc64 (f : OffsetFormat) (off : BitVec 64) : BitVec 64 :=
   ((off >>> f.discard) &&& BitVec.ofNat 64 (2 ^ f.bitCount - 1)) <<< f.bitShift
@@ -73,6 +174,7 @@ def monitor (f : OffsetFormat) (off : BitVec 64) (answer : Option (BitVec 64)) :
   | some m =>
     if f.valueSize = 8 then decode64 f m == off && (m &&& ~~~ fieldMask64 f) == 0#64
     else decode32 f (m.truncate 32) == off && ((m.truncate 32) &&& ~~~ fieldMask32 f) == 0#32 && m.toNat < 2 ^ (8 * f.valueSize)
+         && fieldValid32 f (m.truncate 32)
   | none => !representable f off
 
 end AsmjitVerif.Offset
